@@ -557,3 +557,39 @@ def ob_envelope_same_name_classes(ci: int, order: int, explicit: bool) -> bool:
             if type(back) is not type(ev) or not same_event(ev, back):
                 return False
     return True
+
+
+
+# ------------------------------------------------------------------------------------------------ typed fields nobody passed
+from vlib.h_state import EvDefaults, StopDefaults  # noqa: E402
+
+
+@obligation(quick=90, thorough=200, partitions_quick=["how == 0", "how == 1", "how == 2"],
+            what="events whose typed fields were NOT passed to the constructor: left at their defaults (incl. a default_factory that yields a "
+                 "fresh id per call), filled in place afterwards (list.append / dict item / attribute of a nested model), or assigned — every "
+                 "route hands back the field values the event held, not a fresh class default",
+            bounds={"classes": "Event and StopEvent subclass with default / default_factory fields", "how": "untouched / mutated in place / assigned"})
+def ob_event_unset_fields(stop: bool, how: int, which: int) -> bool:
+    """
+    pre: 0 <= how <= 2 and 0 <= which <= 2
+    post: _
+    """
+    stop = True if stop else False
+    how, which = cint(how, 0, 2), cint(which, 0, 2)
+    with untraced():
+        ev = StopDefaults(result=1) if stop else EvDefaults()
+        if how == 1:
+            if which == 0 or stop:
+                ev.tags.append("x")
+            elif which == 1:
+                ev.meta["k"] = [1]
+            else:
+                ev.inner.x = 5
+        elif how == 2:
+            if which == 0 or stop:
+                ev.tags = ["y"]
+            elif which == 1:
+                ev.meta = {"k": 2}
+            else:
+                ev.n = 9
+        return event_ok(ev)
